@@ -62,6 +62,8 @@ M = Monitor(
 )
 
 # comparison tolerance on B_pred (relative to max(1,|B|)) per procedure: two runs of the same solver on the same row
+L1_EPS = 1e-2          # l1_eps passed with the per-row L1 requests of the minimize_variance grid points
+TOL_X_MV = 2e-3        # |x(bs) - x(1)| relative to the bound range for the unique variance optimum (worst seen 7e-5)
 TOL = {"gaussian": 4e-2, "gaussian-tight": 1e-5, "poisson": 2e-3, "excitation": 3e-2, "minimize_variance": 2e-3}
 
 
@@ -148,9 +150,11 @@ class _Caller:
                     traceback=[f"{f.filename}:{f.lineno}:{f.name}" for f in tb[-5:]])
 
 
-def _run(c, est, proc, B, bs, W=None, where="", ref=False):
+def _run(c, est, proc, B, bs, W=None, where="", ref=False, L1=None):
     c = _Caller(c, ref)
     kw = _kwargs(proc)
+    if L1 is not None:
+        kw.update(L1=np.array(L1, float), l1_eps=L1_EPS)
     if proc in ("gaussian", "gaussian-tight", "poisson", "excitation"):
         model = "gaussian" if proc.startswith("gaussian") else proc
         if W is not None and np.ndim(W) == 2:
@@ -185,8 +189,26 @@ def chk_grid(inp, c):
     Xr, Br = _run(c, est, proc, B, 1, None, "1", ref=True)
     if not (Xr.shape == (N, n) and Br.shape == (N, m) and np.all(np.isfinite(Br))):
         c.inconclusive("reference run (batch_size=1) did not produce a usable result")
+    L1 = None
+    if proc == "minimize_variance" and inp["rich"]:
+        # per-row total-intensity request (a window around 0.8x..1.2x the unconstrained totals, feasible for each row
+        # alone): the per-sample L1 constraint of a batch must bind each sample to ITS OWN request
+        c.cell("L1=rows")
+        from scipy.optimize import linprog
+        L1 = np.sum(Xr, axis=1)
+        for r in range(N):
+            # a total that some in-bound vector with the SAME predicted capture attains (so the request is compatible with
+            # the error bound): between the reference total and the extreme total over the fibre of its prediction
+            sgn = -1.0 if r % 2 else 1.0
+            res = linprog(sgn * np.ones(n), A_eq=Mt, b_eq=Mt @ Xr[r], bounds=list(zip(lbv, ubv)), method="highs")
+            if res.status == 0:
+                fr = 0.25 + 0.5 * ((r * 0.61803398875) % 1.0)
+                L1[r] = (1 - fr) * L1[r] + fr * float(np.sum(res.x))
+        Xr, Br = _run(c, est, proc, B, 1, None, "1", ref=True, L1=L1)
+        if not (Xr.shape == (N, n) and Br.shape == (N, m) and np.all(np.isfinite(Br))):
+            c.inconclusive("reference run (batch_size=1, with L1) did not produce a usable result")
     runtime.EVENTS.clear()
-    Xb, Bb = _run(c, est, proc, B, bs, None, f"{cls}")
+    Xb, Bb = _run(c, est, proc, B, bs, None, f"{cls}", L1=L1)
     ev = [f for k, f in c.events if k == "solve.status" and f.get("where") in ("_solve_problem", "lsq_linear_minimize")]
     if any(f.get("padded") for f in ev):
         c.cell("hook:padded-last-batch")
@@ -206,6 +228,19 @@ def chk_grid(inp, c):
         dx = np.max(np.abs(Xb - Xr), axis=1)
         c.require(np.all(dx <= 10 * tol / smin + 1e-9), "unique optimum: same intensities as with batch size one",
                   mechanism=f"batch-mismatch-X:{proc}", dev=float(np.max(dx)))
+    if proc == "minimize_variance":
+        if L1 is not None:
+            tot = np.sum(Xb, axis=1)
+            c.margin("minimize_variance: |sum x - L1| / l1_eps", float(np.max(np.abs(tot - L1))), L1_EPS * 1.05 + 1e-6)
+            c.require(np.all(np.abs(tot - L1) <= L1_EPS * 1.05 + 1e-6),
+                      "with a batch every sample meets its own total-intensity request (within l1_eps)",
+                      mechanism="batch-l1-request:minimize_variance", worst=float(np.max(np.abs(tot - L1))), bs=str(bs), N=N)
+        if np.all(np.abs(Mt) > 1e-9):
+            # strictly convex variance objective (all variances positive): the optimum is unique, intensities must agree
+            dx = np.max(np.abs(Xb - Xr) / (ubv - lbv), axis=1)
+            c.margin("minimize_variance: |x(bs) - x(1)| / range / tol_x", float(np.max(dx)), TOL_X_MV)
+            c.require(np.all(dx <= TOL_X_MV), "unique variance optimum: same intensities as with batch size one",
+                      mechanism="batch-mismatch-X:minimize_variance", dev=float(np.max(dx)), bs=str(bs), N=N)
     c.nontrivial(N >= 2)
     c.note("grid_point", {"N": N, "batch_size": str(bs), "proc": proc})
     c.note("max_dev_vs_batch1", float(np.max(dev)))
